@@ -429,6 +429,11 @@ def reifyValue (std : Stdlib) : Nat → FOpts → Ty → Val → Outcome GoVal
        | none => raise .expectedObject
        | some sub => reifyMapT std n fo.opts [] t none sub)
     | .slice t => sliceMerge std n fo t none v
+    | .regexp =>
+      -- regexp.Regexp is a struct: an object (or list) setting is "unpacked" into its unexported fields, i.e. not at all
+      (match toCfg? v with
+       | some _ => .ok (.regex "")
+       | none => reifyPrimitiveT std fo .regexp v)
     | .config =>
       (match toCfg? v with
        | none => raise .expectedObject
